@@ -23,7 +23,7 @@ def run(ctx):
     import os
     for f in glob.glob(os.path.join(common.VERIF, "evidence", "replays", "C04-*.json")):
         os.remove(f)
-    ctx.extract(["gate", "gatesig", "gatereg"])
+    ctx.extract(["gate", "gatesig", "gatereg", "gatetab"])
     # three theorem modules over three regenerated modules, so that a change to check_roto_type / check_args /
     # get_function breaks the obligations of C04, a change to force_filtermap_types or TypeInfo::convert exactly
     # those of C04Sig and a change to a Value::resolve body or the registry exactly those of C04Reg
@@ -37,9 +37,20 @@ def run(ctx):
             parts.append({k: ctx.coverage.get(k) for k in ("theorems", "nonvacuity_examples", "axioms")})
         return ok
 
-    prove(PROPS, ["RotoV.Lemmas.Gate", "RotoV.Model.Gate"], targets=("rotov-driver",))
+    prove(PROPS, ["RotoV.Lemmas.Gate", "RotoV.Model.Gate"])
     prove(PROPS + "Sig")
     prove(PROPS + "Reg")
+    # how Module::functions is built (Mir::lower, lir::lower, the helper generators, declare_function): a change
+    # there breaks exactly the obligations of C04Tab
+    prove(PROPS + "Tab", ["RotoV.Model.GateTab"])
+    # the property about programs: the gate theorems composed with the table theorems (no definitions of its own)
+    prove(PROPS + "All")
+    # the driver imports Generated.Gate and Generated.GateTab: built on its own, so that a failed extraction of
+    # one target breaks the obligations of its own theorem module only (the correspondence run then uses the
+    # driver of the last successful build, whose model is the unchanged tree's)
+    ok, out = ctx.lake_build(["rotov-driver"])
+    ctx.checker_cmds.append("cd /verif/lean && lake build " + common.DRIVER_NAME)
+    ctx.obligation("lake:" + common.DRIVER_NAME, ok, "" if ok else out[-1500:])
     if parts:
         ctx.coverage["theorems"] = [t for p in parts for t in p["theorems"]]
         ctx.coverage["nonvacuity_examples"] = sum(p["nonvacuity_examples"] or 0 for p in parts)
@@ -60,7 +71,7 @@ def run(ctx):
     return ctx.finish(
         level="proof",
         rule="requests (script function/filtermap/test signature, requested Rust fn type) made in histories on one package: for each "
-             "of 8 targets per script out of a macro-generated family of 1815 Rust fn types (177 boundary types: 20 leaves x "
+             "of 8 targets per script out of a macro-generated family of 1822 Rust fn types (177 boundary types: 20 leaves x "
              "Option/List/Result/Verdict to depth 2 + depth 3, arity 0..7; plus verdicts of the 14 payload types a filtermap body can "
              "build from unconstrained literals and of 30 neighbours of other width / signedness / float width / order) the true "
              "signature and 4-6 near misses (one leaf / nesting / "
@@ -83,7 +94,16 @@ def run(ctx):
              "of the worker process on another package; then the shortest run of them) so that the replay file carries what of the "
              "process - whose TypeRegistry is shared by all packages - the answer depends on. A class is distinct by "
              "(derivation label, outcome kind, mismatch class, arity), plus (round, true/wrong, label) for repeated requests and "
-             "(label, same/other value) for calls",
+             "(label, same/other value) for calls. Names that are no function of the script: the first 5 scripts of every run are class "
+             "representatives, whatever the seed (25 constants of 24 types; a sub-module with functions, a test, constants and a record; "
+             "generic records / enums and a test named like a function; the generated clone/drop/eq helpers of a script that needs them; "
+             "the ~95 functions and the constants the host registered), every generated script carries three constants (types walking a "
+             "pool of 24: every leaf, (), one and two levels of every constructor) and every third a sub-module; each such name - as written, "
+             "with `pkg.`, as `constant#K`, lower-cased, through the wrong module, helpers also as `clone_N` / `generated::clone_N` - is asked "
+             "under `fn() -> T` for the item's own type, `fn()`, a neighbouring function's true type (representatives: also the test type and "
+             "a one-parameter shape; helpers: the ABI shapes of drop / clone / eq) and must be refused; per script the real function table "
+             "(hook) is compared with the table the modelled compiler pipeline builds from the declarations, and every entry of the real "
+             "table that carries a signature without being a declared function is asked for under the type the table advertises",
         search=search,
     )
 
